@@ -3,14 +3,17 @@ import numpy as np
 from harness.coqcases import run_bool_cases, zlit
 from harness.props._common import run_eval, replay_eval
 
-PROPS_FILE = "P_C11"
+PROPS_FILES = ["P_C11", "P_C11m"]
 GEN_FILES = ["Gen_width"]
-COQ_TARGETS = ["CaseLib", "TopDownModel"]
+COQ_TARGETS = ["CaseLib", "TopDownModel", "DcspModel"]
 RULE = ("translation validation: declared widths, default split and the add_register allocation count regenerated from the source "
         "(Gen_width) are evaluated in Coq and compared with gate.num_qubits and gate.definition.num_qubits for every (n, s), "
         "n <= 7/9 (circuits of up to hundreds of qubits are built, not simulated); direct evaluation (harness/props/c11_eval.py): "
-        "exact marginals of the output qubits, s = n equality up to global phase. distinct = distinct (class, n, s); non-trivial = n >= 2")
-ASSUMPTIONS = ["the marginal-distribution claim for general split levels is evaluated (simulation up to 20/24 qubits), not proved",
+        "exact marginals of the output qubits, s = n equality up to global phase; gate-list correspondence of DcspInitialize with DcspModel.bottom_up_q on the "
+        "captured angle tree, n <= 5/7, with the executable premises of C11_dcsp_marginal and the numerical splitting premise of C11_path_weight. distinct = distinct (class, n, s); non-trivial = n >= 2")
+ASSUMPTIONS = ["the marginal-distribution claim is proved for the divide-and-conquer initializer (C11_dcsp_marginal) and for split = n (C01); for the "
+               "bidirectional variant with 1 <= s < n it is evaluated (simulation up to 20/24 qubits), not proved",
+               "Qiskit's ry, rz, cswap are the matrices of Dcsp.dapp",
                "add_register's tree walk visits a complete binary tree with 2^l nodes on level l (validated by the definition widths)"]
 TRUSTED = ["harness/translate.py gen_width(): expression translation of the width formulas, shape check of the counting statements"]
 HEADER = ("From Coq Require Import List Bool ZArith.\nFrom QV Require Import GenLib Gen_width CaseLib.\nImport ListNotations.\nOpen Scope Z_scope.\n")
@@ -94,9 +97,90 @@ def split_n_correspondence(ctx):
                    shard=15)
 
 
+DHEADER = ("From Coq Require Import List Bool Arith QArith.\nFrom QV Require Import CaseLib DcspModel.\nImport ListNotations.\n"
+           "Definition qgate_eqb (g h : qgate) : bool := match g, h with\n"
+           " | QRY a q, QRY b r => Qeq_bool a b && Nat.eqb q r | QRZ a q, QRZ b r => Qeq_bool a b && Nat.eqb q r\n"
+           " | QCSWAP c a b, QCSWAP c' a' b' => Nat.eqb c c' && Nat.eqb a a' && Nat.eqb b b' | _, _ => false end.\n")
+
+
+def dcsp_correspondence(ctx):
+    """DcspInitialize: the angle tree the gate really walks (captured at the call of tree_walk.bottom_up, with the qubits that
+    add_register assigned) is handed to Coq as a DcspModel.qtree with exact rational angles; inside Coq the model's gate list
+    bottom_up_q must equal the instruction list of the definition, and the executable premises of C11_dcsp_marginal are
+    evaluated (balanced, pairwise distinct qubits, output chain = output register n-1..0).  The premise of C11_path_weight
+    (every node splits the squared norm of its sub-vector by cos^2 / sin^2 of its angle) is checked numerically at 1e-9."""
+    from fractions import Fraction
+    import qclib.state_preparation.dcsp as D
+    from harness.flatten import coq_q, coq_list
+    from harness import monitors
+    from harness.props import c01
+    nmax = 5 if ctx.quick else 7
+    cases, lines = [], []
+    for n in range(1, nmax + 1):
+        for kind in c01.KINDS:
+            v = c01.vector(ctx.rng, n, kind)
+            seen = {}
+
+            def factory(orig):
+                def wrapped(angle_tree, circuit, start_level):
+                    seen["tree"], seen["circuit"], seen["start"] = angle_tree, circuit, start_level
+                    return orig(angle_tree, circuit, start_level)
+                return wrapped
+            with monitors.patched(D, "bottom_up", factory):
+                circ = D.DcspInitialize(v).definition
+            tree, tc = seen["tree"], seen["circuit"]
+            case = {"class": "DcspInitialize", "n": n, "family": kind}
+            bad = []
+
+            def lit(t, prefix):
+                if t is None:
+                    return "QLeaf"
+                q = tc.find_bit(t.qubit).index
+                # contract: the node splits the squared norm of its sub-vector
+                lvl, span = len(prefix), 2 ** (n - len(prefix))
+                j = int("".join(prefix), 2) if prefix else 0
+                if (t.level, t.index) != (lvl, j):
+                    bad.append("angle tree node is not at the (level, index) of its position")
+                sub = np.abs(v[j * span:(j + 1) * span]) ** 2
+                m, m0, m1 = float(sub.sum()), float(sub[:span // 2].sum()), float(sub[span // 2:].sum())
+                w0, w1 = np.cos(t.angle_y / 2) ** 2, np.sin(t.angle_y / 2) ** 2
+                if abs(w0 * m - m0) > 1e-9 or abs(w1 * m - m1) > 1e-9:
+                    bad.append("a node's cos^2 / sin^2 do not split the squared norm of its sub-vector")
+                return (f"(QNode {q} {coq_q(Fraction(float(t.angle_y)))} {coq_q(Fraction(float(t.angle_z)))} "
+                        f"{lit(t.left, prefix + ['0'])} {lit(t.right, prefix + ['1'])})")
+            T = lit(tree, [])
+            ctx.monitor("dcsp_split_contract")
+            if seen["start"] != n:
+                bad.append("bottom_up is not called with start_level = n")
+            items = []
+            for inst in circ.data:
+                op = inst.operation
+                qs = [circ.find_bit(q).index for q in inst.qubits]
+                if op.name in ("ry", "rz"):
+                    items.append(f"Q{op.name.upper()} {coq_q(Fraction(float(op.params[0])))} {qs[0]}")
+                elif op.name == "cswap":
+                    items.append(f"QCSWAP {qs[0]} {qs[1]} {qs[2]}")
+                else:
+                    items.append("QCSWAP 99999 99999 99999")
+            ctx.max_struct_qubits = max(ctx.max_struct_qubits, circ.num_qubits)
+            cases.append(case)
+            ctx.count("corr:dcsp:" + kind, key=("dcsp", n, kind, v.tobytes()), nontrivial=n >= 2,
+                      sample=dict(case, gates=len(items), qubits=circ.num_qubits) if n == 3 else None)
+            out = coq_list([str(q) for q in range(n - 1, -1, -1)])
+            lines.append(f"(list_eqb qgate_eqb (bottom_up_q {T}) {coq_list(items)} && qbalanced {n} {T} && nodupb (qqubits {T}) "
+                         f"&& list_eqb Nat.eqb (qchain {T}) {out})")
+            if bad:
+                ctx.mismatch("C11 contract (dcsp): " + bad[0], case)
+    run_bool_cases(ctx, "c11_dcsp", DHEADER, lines, cases,
+                   lambda c: ctx.mismatch("C11 correspondence: DcspInitialize differs from DcspModel.bottom_up_q on its own angle tree, or "
+                                          "a premise of C11_dcsp_marginal (balanced tree, distinct qubits, output chain) fails", c),
+                   shard=10)
+
+
 def run(ctx):
     tv(ctx)
     split_n_correspondence(ctx)
+    dcsp_correspondence(ctx)
     run_eval(ctx, "C11")
 
 
@@ -115,7 +199,13 @@ def replay(ctx, case):
 
 
 MANIFEST = dict(
-    text='Proof (FULL for widths): declared widths and the add_register allocation count, regenerated from the source, satisfy (s+1)2^(n-s)-1 and 2^n-1 for all n and 1<=s<=n, and s=n uses no ancilla (C11_* theorems). Tie: translator + comparison with gate.num_qubits and definition.num_qubits for every (n,s), n<=7/9. The marginal-distribution claim is evaluated exactly (simulation up to 20/24 qubits).',
-    note='Modelled, not verified: the marginal claim for general split levels (evaluated); tree walk of add_register assumed complete (validated by widths).',
-    technique='Coq proof (geometric sum over Z) on translator-regenerated formulas + translation validation + exact marginal evaluation',
+    text=("Proof: (widths) declared widths and the add_register allocation count, regenerated from the source, satisfy (s+1)2^(n-s)-1 and 2^n-1 for all n and "
+          "1<=s<=n, and s=n uses no ancilla (C11_bdsp_*, C11_dcsp_declared_allocated, C11_split_n_no_ancilla, C11_default_split); (measurement statistics of the "
+          "divide-and-conquer initializer) for every balanced angle tree with distinct qubits and any angles, the model's gate list run from |0..0> gives, summed over "
+          "all ancillas, squared modulus = product of cos^2/sin^2 along the path on the output qubits (C11_dcsp_marginal, C11_weights, C11_dcsp_norm), which is "
+          "|a_k|^2 when every node splits the squared norm of its sub-vector (C11_path_weight). Tie: translator for the widths; the angle tree DcspInitialize really "
+          "walks is compared inside Coq (gate list of the definition = DcspModel.bottom_up_q, premises balanced / distinct qubits / output chain evaluated), the "
+          "splitting premise is checked numerically; split = n is compared with the top-down model (C01). General split levels of the bidirectional variant are evaluated."),
+    note='Modelled, not verified: the bidirectional variant for 1 <= s < n (top-down sub-circuits under a bottom-up top: evaluated exactly); Qiskit ry/rz/cswap matrices.',
+    technique='Coq proof (frame lemma for sub-circuits, sums over qubit registers, re-indexing through controlled swaps; geometric sums over Z) + translator-regenerated formulas + gate-list correspondence (vm_compute) + exact marginal evaluation',
     design_ref='DESIGN.md section 4, C11')
